@@ -329,6 +329,7 @@ class Gen:
         if self.newtypes:
             opts.append("bad-first-type")
         opts.append("bad-syntax")
+        opts += ["dup-param", "wild", "wild", "missing-export", "macro-argc"]
         # (a second definition with the signature of an existing function is NOT in the
         # catalogue: the loop answers it with an interactive "Redefine? (y/n)" question that
         # eats the following input - a dialogue, not a rejection, and outside the property)
@@ -351,6 +352,18 @@ class Gen:
             return self.add(Form("bad:" + k, '%s << "@@x:" << %s(4) << newline;' % (self.d.out, self.fresh("nosuch")), good=False))
         if k == "bad-return":
             return self.add(Form("bad:" + k, "%s(a: %s): String == a;" % (self.fresh("g"), SI), good=False))
+        if k == "dup-param":		# rejected by the syntax checks after parsing
+            return self.add(Form("bad:" + k, "%s(x: %s, x: %s): %s == x;" % (self.fresh("g"), SI, SI, SI), good=False))
+        if k == "wild":			# control forms outside the construct they belong to
+            text = r.choice(["return 3;", "break;", "iterate;", "goto %s;" % self.fresh("lab"), "yield 3;",
+                             "free %s: %s;" % (self.fresh("q"), SI)])
+            return self.add(Form("bad:" + k, text, good=False))
+        if k == "missing-export":	# rejected when the domain is checked against its category
+            nm = self.fresh("D")
+            return self.add(Form("bad:" + k, "%s: with { mk%s: %s -> %% } == add { Rep ==> %s }" % (nm, nm, SI, SI), good=False))
+        if k == "macro-argc":		# rejected during macro expansion
+            nm = self.fresh("MQ")
+            return self.add(Form("bad:" + k, "{ %s(a, b) ==> a + b; %s: %s := %s(1) }" % (nm, self.fresh("v"), SI, nm), good=False))
         if k == "bad-syntax":
             # lexically complete (brackets balanced or closing only, statement terminated), but no parse
             text = r.choice(['%s << ) 3;' % self.d.out, 'q%d := 3 +;' % r.range(1, 99), 'if then else;', 'x +-> ;',
